@@ -160,6 +160,8 @@ pub enum SetOp {
     Eq(usize),
     FromIter(bool, Vec<K>),
     Extend(bool, Vec<K>),
+    /// `self.extend(other)`: the other set is consumed (`for_each` over `SetIntoIter`)
+    ExtendFrom(usize),
     /// `Extend<&T>` (needs `T: Copy`): a `Set<u16, N>` of this register's capacity is built from
     /// the first list, then extended BY REFERENCE with the second
     ExtendRef(Vec<u16>, Vec<u16>),
@@ -457,6 +459,7 @@ fn set_op(a: &[&str]) -> Option<SetOp> {
             crate::ctl::with(|c| c.hint_mode = p.parse().unwrap_or(0));
             SetOp::Extend(*p != "0", keys(xs)?)
         }
+        ["extend_from", o] => SetOp::ExtendFrom(sreg(o)?),
         ["extend_ref", init, xs] => {
             let a: Option<Vec<u16>> = list(init)?.into_iter().map(|x| x.parse().ok()).collect();
             let b: Option<Vec<u16>> = list(xs)?.into_iter().map(|x| x.parse().ok()).collect();
